@@ -2,7 +2,7 @@
    bool, option, list, prod, unit, sumbool map to OCaml's; Z, positive, nat
    stay inductive. No Extract Constant. Run from /verif/ocaml (see build.sh). *)
 From Coq Require Import Extraction ExtrOcamlBasic.
-From MPB Require Import Base BarState F64 Percent Filler Decor Container Sync SizeFmt Proxy Actor PQueue Vt.
+From MPB Require Import Base BarState F64 Percent Filler Decor Container Sync SizeFmt Proxy Actor PQueue Vt WaitGroup.
 Extraction Language OCaml.
 Extraction "mpb_model.ml"
   Z.add Z.mul Z.sub Z.quotrem Z.of_nat Z.to_nat Z.compare Z.opp
@@ -13,4 +13,5 @@ Extraction "mpb_model.ml"
   sstep exec finished answer_of
   spec_call check_lin terminal
   qstep init_pq
-  lex tok_step.
+  lex tok_step
+  wg_init wg_observe.
